@@ -294,6 +294,8 @@ class Dimension:
                                  data_array, "DataArray", index)
 
     def link_data_frame(self, data_frame, index):
+        # the DimensionLink only stores plain ints: refuse others before anything is changed
+        util.check_attr_type(index, int)
         if not 0 <= index < len(data_frame.columns):
             raise OutOfBounds("DataFrame index is out of bounds", index)
         if self.has_link:
